@@ -328,11 +328,35 @@ class Interp:
             await self.flags[st['i']].set(bool(st['v']))
             ev(name, idx, 'ok')
         elif op == 'tset':
+            ev(name, idx, 'tset_begin', (st['i'], st['v']))
             await self.tracked[st['i']].set(st['v'])
             ev(name, idx, 'ok')
         elif op == 'tadd':
+            ev(name, idx, 'tset_begin', (st['i'], self.tracked[st['i']].value + st['v']))
             await (self.tracked[st['i']] + st['v'])
             ev(name, idx, 'ok')
+        elif op == 'bools':
+            # boolean value of conditions right now (no suspension): c, ~~c, and De Morgan forms
+            res = []
+            for e in st['exprs']:
+                c = self.cond(e)
+                row = [bool(c)]
+                try:
+                    row.append(bool(~~c))
+                    row.append(bool(~c))
+                except NotImplementedError:
+                    row += [None, None]
+                if e[0] in ('and', 'or'):
+                    a, b = self.cond(e[1]), self.cond(e[2])
+                    try:
+                        dm = (~a | ~b) if e[0] == 'and' else (~a & ~b)
+                        row.append(bool(dm))
+                    except NotImplementedError:
+                        row.append(None)
+                else:
+                    row.append(None)
+                res.append(row)
+            ev(name, idx, 'bools', res)
         elif op == 'await':
             c = self.cond(st['e'])
             ev(name, idx, 'begin')
